@@ -185,6 +185,13 @@ class Conn:
             return
         if self.t.info.get('method') == 'HEAD' or self.status in (204, 304):
             self.length = 0     # such responses have no body
+            # (aiohttp's own answer to a request it could not even parse
+            # carries one all the same - it does not know the method then;
+            # that is aiohttp's business, not the package's)
+            try:
+                self.head_slack = int(hd.get('content-length', '0'))
+            except ValueError:
+                self.head_slack = 0
         elif 'content-length' in hd:
             try:
                 self.length = int(hd['content-length'])
@@ -221,6 +228,9 @@ class Conn:
                 self.body = self.buf[:self.length]
                 rest = self.buf[self.length:]
                 self.buf = b''
+                if rest and len(rest) == getattr(self, 'head_slack', -1) \
+                        and self.status == 400:
+                    rest = b''
                 if rest:
                     self.t.proto.append('%d bytes beyond Content-Length' %
                                         len(rest))
